@@ -34,7 +34,7 @@ try:
         finally:
             subprocess.run(["git", "-C", "/repo", "checkout", "--", "."])
     else:
-        rc, out = run("/verif/check %s --tier %s" % (prop, tier), env={"PSX_REPO": work}, timeout=7000)
+        rc, out = run("/verif/check %s --tier %s" % (prop, tier), env={"PSX_REPO": work, "PSX_EVIDENCE_DIR": "/tmp/mut/evidence_scratch"}, timeout=7000)
     res["check_exit"] = rc; res["check_wall_s"] = round(time.time() - t, 1)
     lines = out.strip().splitlines()
     res["check_summary"] = [l[:400] for l in lines if l.startswith(prop + " ")][:1]
